@@ -35,6 +35,7 @@ class Sink:
         self.total_calls = 0
         self.global_fault_at = None   # (call number overall, exc kind) for enumeration
         self.fired = []
+        self.stale = []       # (plugin, callback) invoked on an instance after its shutdown()
 
     def enter(self, plugin, cb, payload=None):
         k = _k.active()
@@ -118,7 +119,14 @@ def define(spec):
         bases.append(Plugin)
     pname = name
 
+    def _E(self, cb, payload=None):
+        # a callback on an instance whose shutdown() has been called: the agent kept a plugin of an earlier life
+        if getattr(self, "_dead", False):
+            SINK.stale.append((pname, cb))
+        return SINK.enter(pname, cb, payload)
+
     def __init__(self, config=None):
+        self._dead = False
         SINK.enter(pname, "__init__")
         Plugin.__init__(self, name=None, config=config)
         self._own_reg = None
@@ -128,13 +136,13 @@ def define(spec):
             self._own_reg = config.tracepoints.add_custom("simplug_own.py", 1, {}, [], [])
 
     def is_active(self):
-        SINK.enter(pname, "is_active")
+        _E(self, "is_active")
         if "active" in spec:
             return spec["active"]
         return Plugin.is_active(self)
 
     def order(self):
-        SINK.enter(pname, "order")
+        _E(self, "order")
         o = spec.get("order", 0)
         if o == "@nan":
             return float("nan")
@@ -144,6 +152,7 @@ def define(spec):
 
     def shutdown(self):
         SINK.enter(pname, "shutdown")
+        self._dead = True
         if self._own_reg is not None:
             reg, self._own_reg = self._own_reg, None
             self._own_cfg.tracepoints.remove_custom(reg)
@@ -152,7 +161,7 @@ def define(spec):
 
     if "resource" in kinds:
         def resource(self):
-            SINK.enter(pname, "resource")
+            _E(self, "resource")
             attrs = spec.get("resource")
             if attrs is None:
                 return None
@@ -160,7 +169,7 @@ def define(spec):
         ns["resource"] = resource
     if "decorator" in kinds:
         def decorate(self, snapshot_id, context):
-            SINK.enter(pname, "decorate", snapshot_id)
+            _E(self, "decorate", snapshot_id)
             attrs = spec.get("decorate")
             if attrs is None:
                 return None
@@ -168,13 +177,13 @@ def define(spec):
         ns["decorate"] = decorate
     if "logger" in kinds:
         def log_tracepoint(self, log_msg, tp_id, ctx_id):
-            SINK.enter(pname, "log_tracepoint", (log_msg, tp_id, ctx_id))
+            _E(self, "log_tracepoint", (log_msg, tp_id, ctx_id))
         ns["log_tracepoint"] = log_tracepoint
     if "metric" in kinds:
         def _mk(kind):
             def m(self, name, labels, namespace, help_string, unit, value):
-                SINK.enter(pname, kind, (name, dict(labels) if labels is not None else None, namespace,
-                                         help_string, unit, value))
+                _E(self, kind, (name, dict(labels) if labels is not None else None, namespace,
+                                help_string, unit, value))
                 if spec.get("label_vandal") and isinstance(labels, dict):
                     # a processor that adapts the labels to its backend in place (a constant label, keys renamed)
                     for key in list(labels):
@@ -186,7 +195,7 @@ def define(spec):
             ns[kind] = _mk(kind)
     if "span" in kinds:
         def create_span(self, name, context_id, tracepoint_id):
-            seq = SINK.enter(pname, "create_span", (name, context_id, tracepoint_id))
+            seq = _E(self, "create_span", (name, context_id, tracepoint_id))
             if spec.get("span_none"):
                 return None
             return RecSpan(SINK, pname, name, context_id, tracepoint_id, seq)
@@ -195,6 +204,9 @@ def define(spec):
             return None
         ns["create_span"] = create_span
         ns["current_span"] = current_span
+    if spec.get("falsy"):
+        # a plugin object that is an (empty) container: its truth value says nothing about its being there
+        ns["__len__"] = lambda self: 0
     cls = type(name, tuple(bases), ns)
     cls.__module__ = __name__
     setattr(sys.modules[__name__], name, cls)
